@@ -246,6 +246,11 @@ Proof.
   replace (sm sw f x) with x1 by (unfold sm; symmetry; apply H3, Lz). reflexivity.
 Qed.
 
+Lemma sweeps_sm' (sw : sweep) k : sweep_ok n sw -> forall f (xt : vec * vec),
+  length f = n -> length (fst xt) = n -> length (snd xt) = n ->
+  fst (sweeps k sw f xt) = itpow k (sm sw) f (fst xt) /\ length (snd (sweeps k sw f xt)) = n.
+Proof. intros H f [x t] Lf Lx Lt. apply sweeps_sm; assumption. Qed.
+
 (* --- the coarse-grid correction as an iteration --- *)
 Section Cgc.
 Variable n' : nat.
@@ -320,5 +325,331 @@ Qed.
 
 End Cgc.
 End Iterations.
+
+(* ------------------------------------------------------------------ *)
+(* the cycle as an iteration *)
+Section CycleIt.
+Variables k nc : nat.           (* npre = npost = k, ncycle = nc *)
+Local Notation cyc := (cycle k k nc).
+
+Definition zscr (lvls : list level) : list scratch :=
+  map (fun l => let m := nrows (lA l) in mkScratch (vzero m) (vzero m) (vzero m)) lvls.
+
+Lemma zscr_wf lvls : scratch_wf lvls (zscr lvls).
+Proof.
+  induction lvls as [|l ls IH]; [exact I|]. cbn [zscr map scratch_wf]. split; [|exact IH].
+  unfold scr_ok; cbn [sf su st]. rewrite !vzero_length. auto.
+Qed.
+
+Definition Cyc (lvls : list level) : iteration := fun f x => fst (cyc lvls (zscr lvls) f x).
+
+Lemma Cyc_any (lvls : list level) : hier_wf lvls -> forall scr f x, scratch_wf lvls scr ->
+  length f = top_n lvls -> length x = top_n lvls -> fst (cyc lvls scr f x) = Cyc lvls f x.
+Proof.
+  intros Hw scr f x Hs Lf Lx. unfold Cyc.
+  apply (cycle_history_indep zero_is_zero k k nc lvls Hw scr (zscr lvls) f x Hs (zscr_wf lvls) Lf Lx).
+Qed.
+
+Lemma Cyc_len (lvls : list level) : hier_wf lvls -> it_len (top_n lvls) (Cyc lvls).
+Proof.
+  intros Hw f x Lf Lx. unfold Cyc.
+  apply (cycle_history_indep zero_is_zero k k nc lvls Hw (zscr lvls) (zscr lvls) f x
+           (zscr_wf lvls) (zscr_wf lvls) Lf Lx).
+Qed.
+
+Lemma cyc_snd_wf (lvls : list level) : hier_wf lvls -> forall scr f x, scratch_wf lvls scr ->
+  length f = top_n lvls -> length x = top_n lvls -> scratch_wf lvls (snd (cyc lvls scr f x)).
+Proof.
+  intros Hw scr f x Hs Lf Lx.
+  apply (cycle_history_indep zero_is_zero k k nc lvls Hw scr scr f x Hs Hs Lf Lx).
+Qed.
+
+(* the loop body of a level with a coarser one below *)
+Definition body_it (l : level) (n' : nat) (Bc : vec -> vec) : iteration :=
+  let n := nrows (lA l) in
+  comp (itpow k (sm n (lpost l))) (comp (cgc n (lA l) n' (lR l) (lP l) Bc) (itpow k (sm n (lpre l)))).
+
+Lemma cyc_mid_eq (l nxt : level) (rest : list level) :
+  hier_wf (l :: nxt :: rest) -> forall scr f x, scratch_wf (l :: nxt :: rest) scr ->
+  length f = nrows (lA l) -> length x = nrows (lA l) ->
+  fst (cyc (l :: nxt :: rest) scr f x) =
+  itpow nc (body_it l (nrows (lA nxt)) (fun h => Cyc (nxt :: rest) h (vzero (nrows (lA nxt))))) f x.
+Proof.
+  intros Hw scr f x Hs Lf Lx.
+  pose proof Hw as (Hpre & Hpost & NR & Hw').
+  set (n := nrows (lA l)) in *. set (n' := nrows (lA nxt)) in *.
+  set (Bc := fun h => Cyc (nxt :: rest) h (vzero n')).
+  destruct scr as [|s [|sn srest]]; try (simpl in Hs; tauto).
+  cbn [scratch_wf] in Hs. destruct Hs as [(_ & _ & Lt) Hs'].
+  rewrite cycle_mid_proj. cbv zeta. cbn [fst].
+  (* invariant of the loop *)
+  assert (G : forall m (x t : vec) sc, length x = n -> length t = n -> scratch_wf (nxt :: rest) sc ->
+            fst (fst (iter m (cyc_body k k (cyc (nxt :: rest)) l f) (x, t, sc))) =
+            iter m (body_it l n' Bc f) x).
+  { induction m as [|m IH]; intros x0 t0 sc L0 Lt0 Hsc; [reflexivity|].
+    cbn [iter].
+    destruct sc as [|sn0 sc']; [destruct Hsc|].
+    pose proof Hsc as Hsc0. cbn [scratch_wf] in Hsc. destruct Hsc as [(Lsf & Lsu & Lst) Hsc'].
+    fold n' in Lsf, Lsu, Lst.
+    rewrite cyc_body_proj. cbv zeta.
+    destruct (sweeps_sm n (lpre l) k Hpre f x0 t0 Lf L0 Lt0) as [E1 L1].
+    set (x1 := itpow k (sm n (lpre l)) f x0) in *.
+    assert (Lx1 : length x1 = n) by (apply (itpow_len n k _ (sm_len n _ Hpre)); assumption).
+    unfold Vec.vec in *. rewrite E1.
+    assert (Et2 : residual f (lA l) x1 (snd (sweeps k (lpre l) f (x0, t0))) = res n (lA l) f x1).
+    { unfold res. apply residual_ignores_res; rewrite ?vzero_length; auto. }
+    unfold Vec.vec in *. rewrite Et2.
+    assert (Lt2 : length (res n (lA l) f x1) = n).
+    { unfold res. apply residual_length; rewrite ?vzero_length; auto. }
+    assert (Ef' : spmv s1 (lR l) (res n (lA l) f x1) s0 (sf sn0) = restr n' (lR l) (res n (lA l) f x1)).
+    { unfold restr. apply spmv_beta0_ignores_y; [apply zero_is_zero| |]; rewrite ?vzero_length; congruence. }
+    unfold Vec.vec in *. rewrite Ef'. rewrite (vclear_vzero (su sn0)), Lsu.
+    set (f' := restr n' (lR l) (res n (lA l) f x1)).
+    assert (Lf' : length f' = n') by (unfold f', restr; rewrite spmv_length_any; apply vzero_length).
+    set (scr' := mkScratch f' (vzero n') (st sn0) :: sc').
+    assert (Hscr' : scratch_wf (nxt :: rest) scr').
+    { unfold scr'. cbn [scratch_wf]. split; [|exact Hsc']. unfold scr_ok; cbn [sf su st]. fold n'.
+      rewrite vzero_length. auto. }
+    assert (Er : fst (cyc (nxt :: rest) scr' f' (vzero n')) = Bc f').
+    { unfold Bc. apply (Cyc_any (nxt :: rest) Hw' scr' f' (vzero n') Hscr' Lf'). apply vzero_length. }
+    unfold Vec.vec in *. rewrite Er.
+    assert (LB : length (Bc f') = n').
+    { unfold Bc. apply (Cyc_len (nxt :: rest) Hw'); [exact Lf'|apply vzero_length]. }
+    set (x2 := spmv s1 (lP l) (Bc f') s1 x1).
+    assert (Lx2 : length x2 = n) by (unfold x2; rewrite spmv_length_any; exact Lx1).
+    destruct (sweeps_sm n (lpost l) k Hpost f x2 (res n (lA l) f x1) Lf Lx2 Lt2) as [E3 L3].
+    apply (IH (fst (sweeps k (lpost l) f (x2, res n (lA l) f x1)))
+              (snd (sweeps k (lpost l) f (x2, res n (lA l) f x1)))
+              (set_u (Bc f') (snd (cyc (nxt :: rest) scr' f' (vzero n'))))) in L3 as IH'.
+    - unfold Vec.vec in *. rewrite IH'. rewrite E3. unfold body_it at 2, comp. fold n. reflexivity.
+    - unfold Vec.vec in *. rewrite E3. apply (itpow_len n k _ (sm_len n _ Hpost)); assumption.
+    - apply set_u_wf; [|exact LB].
+      apply (cyc_snd_wf (nxt :: rest) Hw' scr' f' (vzero n') Hscr' Lf'). apply vzero_length. }
+  apply G; assumption.
+Qed.
+
+Lemma cyc_last_eq (l : level) : hier_wf [l] -> forall scr f x, scratch_wf [l] scr ->
+  length f = nrows (lA l) -> length x = nrows (lA l) ->
+  fst (cyc [l] scr f x) =
+  match lsolve l with
+  | Some sv => sv f x
+  | None => comp (itpow k (sm (nrows (lA l)) (lpost l))) (itpow k (sm (nrows (lA l)) (lpre l))) f x
+  end.
+Proof.
+  intros (Hpre & Hpost & _) scr f x Hs Lf Lx.
+  destruct scr as [|s srest]; [destruct Hs|]. cbn [scratch_wf] in Hs. destruct Hs as [(_ & _ & Lt) _].
+  rewrite cycle_last. destruct (lsolve l) as [sv|]; [reflexivity|]. cbv zeta. cbn [fst].
+  set (n := nrows (lA l)) in *.
+  destruct (sweeps_sm n (lpre l) k Hpre f x (st s) Lf Lx Lt) as [E1 L1].
+  assert (Lx1 : length (itpow k (sm n (lpre l)) f x) = n)
+    by (apply (itpow_len n k _ (sm_len n _ Hpre)); assumption).
+  assert (Lp : length (fst (sweeps k (lpre l) f (x, st s))) = n)
+    by (etransitivity; [apply f_equal, E1|exact Lx1]).
+  destruct (sweeps_sm' n (lpost l) k Hpost f (sweeps k (lpre l) f (x, st s)) Lf Lp L1) as [E2 _].
+  etransitivity; [exact E2|]. unfold comp. apply f_equal. exact E1.
+Qed.
+
+Definition nosolve_top (lvls : list level) : Prop :=
+  match lvls with [l] => lsolve l = None | _ => True end.
+
+Definition selfdual (lvls : list level) : Prop :=
+  match lvls with
+  | l :: _ => it_cons (nrows (lA l)) (lA l) (Cyc lvls) /\ it_dual (nrows (lA l)) (lA l) (Cyc lvls) (Cyc lvls)
+  | [] => True
+  end.
+
+Lemma it_cons_ext n A Phi Psi : (forall f x, length f = n -> length x = n -> Psi f x = Phi f x) ->
+  it_cons n A Phi -> nrows A = n -> it_cons n A Psi.
+Proof.
+  intros E H NA f x Lf Lx. rewrite (E f x Lf Lx), (H f x Lf Lx).
+  rewrite (E (res n A f x) (z n)); [reflexivity| |apply Lz].
+  unfold res. rewrite <- NA in *. apply residual_length; rewrite ?vzero_length; auto.
+Qed.
+
+Lemma it_dual_ext n A Phi Psi : (forall f x, length f = n -> length x = n -> Psi f x = Phi f x) ->
+  it_dual n A Phi Phi -> it_dual n A Psi Psi.
+Proof.
+  intros E H f x g Lf Lx Lg. rewrite (E f x Lf Lx), (E g (z n) Lg (Lz n)). apply H; assumption.
+Qed.
+
+Theorem Cyc_sym (lvls : list level) : hier_sym lvls -> hier_symk lvls ->
+  (forall f g, length f = top_n lvls -> length g = top_n lvls ->
+     ip (top_n lvls) (Cyc lvls f (vzero (top_n lvls))) g = ip (top_n lvls) f (Cyc lvls g (vzero (top_n lvls)))) /\
+  (nosolve_top lvls -> selfdual lvls).
+Proof.
+  induction lvls as [|l rest IH]; intros Hh Hk; [split; [reflexivity|auto]|].
+  pose proof (hier_sym_wf _ Hh) as Hwf.
+  cbn [hier_sym] in Hh. destruct Hh as (Hpre & Hpost & WA & HsA & Hcpost & Hadj & Hmid & Hrest).
+  cbn [hier_symk] in Hk. destruct Hk as [Hcpre Hk'].
+  cbn [top_n]. set (n := nrows (lA l)) in *.
+  assert (NA : nrows (lA l) = n) by reflexivity.
+  pose proof (sweep_adj_swap n (lpre l) (lpost l) Hpre Hpost Hadj) as Hadj'.
+  (* smoother powers *)
+  pose proof (sm_len n _ Hpre) as Lpre. pose proof (sm_len n _ Hpost) as Lpost.
+  pose proof (itpow_len n k _ Lpre) as LPpre. pose proof (itpow_len n k _ Lpost) as LPpost.
+  pose proof (itpow_cons n (lA l) WA NA HsA k _ Lpre (sm_cons n (lA l) _ Hcpre)) as CPpre.
+  pose proof (itpow_cons n (lA l) WA NA HsA k _ Lpost (sm_cons n (lA l) _ Hcpost)) as CPpost.
+  pose proof (itpow_dual n (lA l) WA NA HsA k _ _ Lpost Lpre (sm_cons n (lA l) _ Hcpre)
+                (sm_dual n (lA l) WA NA HsA _ _ Hpre Hpost Hcpost Hadj)) as Dpost.
+  pose proof (itpow_dual n (lA l) WA NA HsA k _ _ Lpre Lpost (sm_cons n (lA l) _ Hcpost)
+                (sm_dual n (lA l) WA NA HsA _ _ Hpost Hpre Hcpre Hadj')) as Dpre.
+  destruct rest as [|nxt rest'].
+  - (* coarsest level *)
+    assert (Ec : forall f x, length f = n -> length x = n -> Cyc [l] f x =
+              match lsolve l with
+              | Some sv => sv f x
+              | None => comp (itpow k (sm n (lpost l))) (itpow k (sm n (lpre l))) f x end).
+    { intros f x Lf Lx. unfold Cyc. apply (cyc_last_eq l Hwf); auto. apply (zscr_wf [l]). }
+    destruct (lsolve l) as [sv|] eqn:El.
+    + split; [|intro Hn; simpl in Hn; congruence].
+      intros f g Lf Lg. rewrite !Ec by (auto using vzero_length).
+      apply (Hmid sv eq_refl); auto using vzero_length.
+    + assert (SD : it_dual n (lA l) (Cyc [l]) (Cyc [l])).
+      { apply (it_dual_ext n (lA l) (comp (itpow k (sm n (lpost l))) (itpow k (sm n (lpre l)))));
+          [exact Ec|].
+        apply (comp_dual n (lA l) WA NA HsA); assumption. }
+      split.
+      * intros f g Lf Lg. apply (dual_sym n (lA l) _ SD); assumption.
+      * intros _. split; [|exact SD].
+        apply (it_cons_ext n (lA l) (comp (itpow k (sm n (lpost l))) (itpow k (sm n (lpre l)))));
+          [exact Ec| |exact NA].
+        apply (comp_cons n (lA l) WA NA HsA); assumption.
+  - (* level with a coarser one below *)
+    destruct Hmid as (WR & WP & NR & NP & HT).
+    set (n' := nrows (lA nxt)) in *.
+    destruct (IH Hrest Hk') as [Bsym _]. cbn [top_n] in Bsym. fold n' in Bsym.
+    pose proof Hwf as (_ & _ & _ & Hwf').
+    set (Bc := fun h => Cyc (nxt :: rest') h (vzero n')).
+    assert (Bc_len : forall h, length h = n' -> length (Bc h) = n').
+    { intros h Lh. unfold Bc. apply (Cyc_len (nxt :: rest') Hwf'); [exact Lh|apply vzero_length]. }
+    pose proof (cgc_len n (lA l) n' (lR l) (lP l) Bc) as Lcgc.
+    pose proof (cgc_cons n (lA l) WA NA HsA n' (lR l) (lP l) Bc WP NP) as Ccgc.
+    pose proof (cgc_dual n (lA l) WA NA HsA n' (lR l) (lP l) Bc WR WP NR NP HT Bc_len Bsym) as Dcgc.
+    (* body = post^k after cgc after pre^k : consistent and self-dual *)
+    set (mid := comp (cgc n (lA l) n' (lR l) (lP l) Bc) (itpow k (sm n (lpre l)))).
+    assert (Lmid : it_len n mid) by (apply comp_len; assumption).
+    assert (Cmid : it_cons n (lA l) mid) by (apply (comp_cons n (lA l) WA NA HsA); assumption).
+    (* dual of mid = pre^k after cgc ... as the composite (post^k-dual) *)
+    set (mid' := comp (itpow k (sm n (lpost l))) (cgc n (lA l) n' (lR l) (lP l) Bc)).
+    assert (Lmid' : it_len n mid') by (apply comp_len; assumption).
+    assert (Cmid' : it_cons n (lA l) mid') by (apply (comp_cons n (lA l) WA NA HsA); assumption).
+    assert (Dmid : it_dual n (lA l) mid mid').
+    { unfold mid, mid'. apply (comp_dual n (lA l) WA NA HsA); assumption. }
+    assert (Lbody : it_len n (body_it l n' Bc)) by (apply comp_len; assumption).
+    assert (Cbody : it_cons n (lA l) (body_it l n' Bc))
+      by (apply (comp_cons n (lA l) WA NA HsA); assumption).
+    assert (Dbody : it_dual n (lA l) (body_it l n' Bc) (body_it l n' Bc)).
+    { (* body = post^k after mid ; its dual = mid' after pre^k = body again *)
+      assert (E : forall f x, body_it l n' Bc f x = comp mid' (itpow k (sm n (lpre l))) f x) by reflexivity.
+      intros f x g Lf Lx Lg. rewrite (E g (z n)).
+      change (body_it l n' Bc f x) with (comp (itpow k (sm n (lpost l))) mid f x).
+      apply (comp_dual n (lA l) WA NA HsA mid (itpow k (sm n (lpost l))) mid' (itpow k (sm n (lpre l))));
+        assumption. }
+    assert (Ec : forall f x, length f = n -> length x = n ->
+              Cyc (l :: nxt :: rest') f x = itpow nc (body_it l n' Bc) f x).
+    { intros f x Lf Lx. unfold Cyc. apply (cyc_mid_eq l nxt rest' Hwf); auto. apply zscr_wf. }
+    assert (SD : it_dual n (lA l) (Cyc (l :: nxt :: rest')) (Cyc (l :: nxt :: rest'))).
+    { apply (it_dual_ext n (lA l) (itpow nc (body_it l n' Bc))); [exact Ec|].
+      apply (itpow_dual n (lA l) WA NA HsA); assumption. }
+    split.
+    + intros f g Lf Lg. apply (dual_sym n (lA l) _ SD); assumption.
+    + intros _. split; [|exact SD].
+      apply (it_cons_ext n (lA l) (itpow nc (body_it l n' Bc))); [exact Ec| |exact NA].
+      apply (itpow_cons n (lA l) WA NA HsA); assumption.
+Qed.
+
+(* apply = pre_cycles cycles from x = 0 *)
+Lemma apply_it pc (lvls : list level) : hier_wf lvls -> forall scr f x, scratch_wf lvls scr ->
+  length f = top_n lvls -> length x = top_n lvls ->
+  fst (apply k k nc (Datatypes.S pc) lvls scr f x) =
+  itpow (Datatypes.S pc) (Cyc lvls) f (vzero (top_n lvls)).
+Proof.
+  intros Hw scr f x Hs Lf Lx. unfold apply. rewrite (vclear_vzero x), Lx.
+  assert (G : forall m (y : vec) sc, length y = top_n lvls -> scratch_wf lvls sc ->
+            fst (iter m (fun xs => cyc lvls (snd xs) f (fst xs)) (y, sc)) = iter m (Cyc lvls f) y).
+  { induction m as [|m IH]; intros y sc Ly Hsc; [reflexivity|]. cbn [iter fst snd].
+    rewrite (surjective_pairing (cyc lvls sc f y)).
+    rewrite IH.
+    - rewrite (Cyc_any lvls Hw sc f y Hsc Lf Ly). reflexivity.
+    - rewrite (Cyc_any lvls Hw sc f y Hsc Lf Ly). apply (Cyc_len lvls Hw); assumption.
+    - apply (cyc_snd_wf lvls Hw); assumption. }
+  apply G; [apply vzero_length|exact Hs].
+Qed.
+
+End CycleIt.
+
+Section Final.
+Hypothesis sadj_id : forall a : S, sadj a = a.
+
+(* A3, full statement: npre = npost = k, any ncycle, pre_cycles = 1; and any pre_cycles >= 1
+   unless the hierarchy is a single level handled by the direct solver *)
+Theorem apply_sym_full k nc pc (lvls : list level) : hier_sym lvls -> hier_symk lvls -> lvls <> [] ->
+  (pc = 0 \/ nosolve_top lvls) ->
+  forall scr1 scr2 f g x1 x2,
+  scratch_wf lvls scr1 -> scratch_wf lvls scr2 ->
+  length f = top_n lvls -> length g = top_n lvls ->
+  length x1 = top_n lvls -> length x2 = top_n lvls ->
+  dot (fst (apply k k nc (Datatypes.S pc) lvls scr1 f x1)) g =
+  dot f (fst (apply k k nc (Datatypes.S pc) lvls scr2 g x2)).
+Proof.
+  intros Hh Hk Hne Hpc scr1 scr2 f g x1 x2 H1 H2 Lf Lg L1 L2.
+  pose proof (hier_sym_wf _ Hh) as Hw.
+  rewrite !(apply_it k nc pc lvls Hw) by assumption.
+  set (n := top_n lvls) in *.
+  assert (LC : it_len n (itpow (Datatypes.S pc) (Cyc k nc lvls)))
+    by (apply itpow_len, (Cyc_len k nc lvls Hw)).
+  rewrite !(dot_ip Srt sadj_id n) by (auto using LC, vzero_length).
+  destruct (Cyc_sym k nc lvls Hh Hk) as [Bsym SD].
+  destruct Hpc as [->|Hns].
+  - apply Bsym; assumption.
+  - specialize (SD Hns). destruct lvls as [|l rest]; [congruence|].
+    destruct SD as [SC SD]. cbn [top_n] in *.
+    pose proof Hh as Hh'. cbn [hier_sym] in Hh'. destruct Hh' as (_ & _ & WA & HsA & _).
+    apply (dual_sym n (lA l) (itpow (Datatypes.S pc) (Cyc k nc (l :: rest)))); [|assumption|assumption].
+    apply (itpow_dual n (lA l) WA eq_refl HsA); try assumption; apply (Cyc_len k nc (l :: rest) Hw).
+Qed.
+
+End Final.
+
+(* --- closed form for hierarchies built by amg_init with Jacobi / SPAI-0 --- *)
+Lemma ts_sym_wf (ts : list (option (crs * crs))) : forall n, ts_sym n ts -> ts_wf n ts.
+Proof.
+  induction ts as [|[[P R]|] ts' IH]; intros n H; simpl in *; auto.
+  destruct H as (H1 & H2 & H3 & _ & H5). auto.
+Qed.
+
+Lemma nosolve_top_nosolve ce ml cop ts (M : crs) (kd : @relax_kind S) :
+  nosolve_top (std_levels kd (amg_init ce false ml cop ts M)).
+Proof.
+  unfold amg_init. pose proof (build_no_solve ce ml cop ts (sort_rows M) 0) as H.
+  destruct (build ce false ml cop ts (sort_rows M) 0) as [|d [|d2 tl]]; simpl; auto.
+  destruct d as [A P R|A|A]; simpl; auto. exfalso. apply (H A). left. reflexivity.
+Qed.
+
+Section FinalBuilt.
+Hypothesis sadj_id : forall a : S, sadj a = a.
+
+Theorem built_apply_sym_full kd ce dc ml sc ts (M : crs) k nc pc : sym_kind kd ->
+  wf M = true -> sym_mat (nrows M) M -> ts_sym (nrows M) ts ->
+  (forall A, In (LSolve A) (amg_init ce dc ml (coarse_op_of sc) ts M) ->
+             solve_sym (nrows A) (mk_solve_exact A)) ->
+  let lvls := std_levels kd (amg_init ce dc ml (coarse_op_of sc) ts M) in
+  (pc = 0 \/ nosolve_top lvls) ->
+  forall scr1 scr2 f g x1 x2,
+  scratch_wf lvls scr1 -> scratch_wf lvls scr2 ->
+  length f = nrows M -> length g = nrows M -> length x1 = nrows M -> length x2 = nrows M ->
+  dot (fst (apply k k nc (Datatypes.S pc) lvls scr1 f x1)) g =
+  dot f (fst (apply k k nc (Datatypes.S pc) lvls scr2 g x2)).
+Proof.
+  intros Hk WM SM Hts Hsol lvls Hpc scr1 scr2 f g x1 x2 H1 H2 Lf Lg L1 L2.
+  destruct (std_levels_sym Srt Seqb kd ce dc ml sc ts M Hk WM SM Hts Hsol) as [Hsym Hsk].
+  destruct (amg_init_chain ce dc ml (coarse_op_of sc) ts M) as [Hc Hh].
+  destruct (std_levels_wf kd _ _ (coarse_op_of_shape sc) Hc) as (_ & Hne & _).
+  assert (En : top_n lvls = nrows M).
+  { unfold lvls, std_levels. rewrite (top_n_inst _ _ _ _ Hh). apply sort_rows_nrows. }
+  apply (apply_sym_full sadj_id k nc pc lvls Hsym Hsk Hne Hpc); congruence.
+Qed.
+
+End FinalBuilt.
 
 End A3Full.
